@@ -192,96 +192,84 @@ end QV
 namespace QV
 open QV.Compiler
 
-theorem popBarrier_run (res res' : List AGate) (h : popBarrier res = some res') (s : BState) :
-    runClassical res'.reverse s = runClassical res.reverse s := by
-  unfold popBarrier at h
+theorem popBarrier_run (res : List AGate) (s : BState) :
+    runClassical (popBarrier res).reverse s = runClassical res.reverse s := by
+  unfold popBarrier
   cases res with
-  | nil => simp at h
+  | nil => rfl
   | cons r rs =>
-    simp only at h
-    split at h
+    simp only
+    split
     · next hb =>
-      have : rs = res' := by simpa using h
-      subst this
       have hn : r.cls.isNop = true := by
         have : r.cls = .Barrier := by simpa using hb
         simp [this, GClass.isNop]
       rw [List.reverse_cons, runClassical_append]
       show _ = runClassical [r] _
       rw [runClassical_cons, stepClassical_nop r hn]; rfl
-    · have : r :: rs = res' := by simpa using h
-      subst this; rfl
+    · rfl
 
 /-- **`remove_identities` preserves the classical action** of a list of X/CX/MCX gates on
 distinct wires (and barriers): adjacent identical gates, also across one barrier, cancel. -/
-theorem removeIdentitiesLoop_sound : ∀ (fuel : Nat) (gs res out : List AGate),
-    removeIdentitiesLoop fuel gs res = some out → gs.length < fuel →
-    (∀ g ∈ gs, g.wires.Nodup) → ∀ s, runClassical out s = runClassical (res.reverse ++ gs) s := by
+theorem removeIdentitiesLoop_sound : ∀ (fuel : Nat) (gs res : List AGate),
+    gs.length < fuel → (∀ g ∈ gs, g.wires.Nodup) →
+    ∀ s, runClassical (removeIdentitiesLoop fuel gs res) s = runClassical (res.reverse ++ gs) s := by
   intro fuel
   induction fuel with
-  | zero => intro gs res out _ hl; omega
+  | zero => intro gs res hl; omega
   | succ fuel ih =>
-    intro gs res out h hl hwf s
+    intro gs res hl hwf s
     cases gs with
-    | nil =>
-      simp only [removeIdentitiesLoop] at h
-      have : res.reverse = out := by simpa using h
-      subst this; simp
+    | nil => simp [removeIdentitiesLoop]
     | cons g rest =>
-      simp only [removeIdentitiesLoop] at h
+      simp only [removeIdentitiesLoop]
       have hg : g.wires.Nodup := hwf g List.mem_cons_self
       cases rest with
       | nil =>
-        simp only at h
-        have := ih [] (g :: res) out h (by simp at hl ⊢; omega) (by simp) s
+        simp only
+        have := ih [] (g :: res) (by simp at hl ⊢; omega) (by simp) s
         simpa using this
       | cons g1 rest1 =>
-        simp only at h
-        by_cases e1 : (g == g1) = true
-        · simp only [e1, if_true] at h
-          have eg : g = g1 := by simpa using e1
-          cases hp : popBarrier res with
-          | none => simp [hp] at h
-          | some res' =>
-            simp only [hp] at h
-            have h1 := ih rest1 res' out h (by simp at hl ⊢; omega)
-              (fun g' hg' => hwf g' (by simp [hg'])) s
-            rw [h1, runClassical_append, runClassical_append, popBarrier_run res res' hp,
-              runClassical_cons, runClassical_cons, ← eg, stepClassical_involutive g hg]
-        · simp only [e1] at h
+        simp only
+        by_cases e1 : (g.cls.isSelfInverse && g == g1) = true
+        · simp only [e1, if_true]
+          have eg : g = g1 := by
+            simp only [Bool.and_eq_true] at e1; simpa using e1.2
+          have h1 := ih rest1 (popBarrier res) (by simp at hl ⊢; omega)
+            (fun g' hg' => hwf g' (by simp [hg'])) s
+          rw [h1, runClassical_append, runClassical_append, popBarrier_run,
+            runClassical_cons, runClassical_cons, ← eg, stepClassical_involutive g hg]
+        · simp only [e1, Bool.false_eq_true, if_false]
           cases rest1 with
           | nil =>
-            simp only at h
-            have := ih [g1] (g :: res) out h (by simp at hl ⊢; omega)
+            simp only
+            have := ih [g1] (g :: res) (by simp at hl ⊢; omega)
               (fun g' hg' => hwf g' (by simp at hg'; simp [hg'])) s
             simpa using this
           | cons g2 rest2 =>
-            simp only at h
-            by_cases e2 : (g == g2 && g1.cls == GClass.Barrier) = true
-            · simp only [e2, if_true] at h
+            simp only
+            by_cases e2 : (g.cls.isSelfInverse && g == g2 && g1.cls == GClass.Barrier) = true
+            · simp only [e2, if_true]
               have e2' := e2
               simp only [Bool.and_eq_true] at e2'
-              have eg : g = g2 := by simpa using e2'.1
+              have eg : g = g2 := by simpa using e2'.1.2
               have hb : g1.cls.isNop = true := by
                 have : g1.cls = .Barrier := by simpa using e2'.2
                 simp [this, GClass.isNop]
-              cases hp : popBarrier res with
-              | none => simp [hp] at h
-              | some res' =>
-                simp only [hp] at h
-                have h1 := ih rest2 res' out h (by simp at hl ⊢; omega)
-                  (fun g' hg' => hwf g' (by simp [hg'])) s
-                rw [h1, runClassical_append, runClassical_append, popBarrier_run res res' hp,
-                  runClassical_cons, runClassical_cons, runClassical_cons, stepClassical_nop g1 hb,
-                  ← eg, stepClassical_involutive g hg]
-            · simp only [e2] at h
-              have := ih (g1 :: g2 :: rest2) (g :: res) out h (by simp at hl ⊢; omega)
+              have h1 := ih rest2 (popBarrier res) (by simp at hl ⊢; omega)
+                (fun g' hg' => hwf g' (by simp [hg'])) s
+              rw [h1, runClassical_append, runClassical_append, popBarrier_run,
+                runClassical_cons, runClassical_cons, runClassical_cons, stepClassical_nop g1 hb,
+                ← eg, stepClassical_involutive g hg]
+            · simp only [e2, Bool.false_eq_true, if_false]
+              have := ih (g1 :: g2 :: rest2) (g :: res) (by simp at hl ⊢; omega)
                 (fun g' hg' => hwf g' (by simp at hg'; simp [hg'])) s
               simpa using this
 
-theorem removeIdentitiesList_sound (gs out : List AGate) (h : removeIdentitiesList gs = some out)
-    (hwf : ∀ g ∈ gs, g.wires.Nodup) (s : BState) : runClassical out s = runClassical gs s := by
-  have := removeIdentitiesLoop_sound (gs.length + 1) gs [] out h (by omega) hwf s
-  simpa using this
+theorem removeIdentitiesList_sound (gs : List AGate)
+    (hwf : ∀ g ∈ gs, g.wires.Nodup) (s : BState) :
+    runClassical (removeIdentitiesList gs) s = runClassical gs s := by
+  have := removeIdentitiesLoop_sound (gs.length + 1) gs [] (by omega) hwf s
+  simpa [removeIdentitiesList] using this
 
 end QV
